@@ -38,6 +38,12 @@ def boxes(tier, rng):
         out.append([[0], [b]])
         out.append([[-b], [0]])
         out.append([[0, 0], [1, b]])
+    # the caller's bounds as Python lists and as numpy arrays of narrow integer types whose WIDTH does not fit the type
+    for how, lo, hi in (("i8", -100, 100), ("u8", 0, 255), ("i8", -128, 127), ("i16", -20000, 20000), ("u16", 0, 40000),
+                        ("i64", -3, 3), ("list", -2, 2)):
+        out.append([[lo], [hi], how])
+        if hi - lo < 1000:
+            out.append([[0, lo], [1, hi], how])
     return out
 
 
